@@ -2827,6 +2827,9 @@ REF_FCN REF_STATUS ref_node_bary3d(REF_NODE ref_node, REF_INT *nodes,
   xyzp[1] = xyz[1] - xyz0[1];
   xyzp[2] = xyz[2] - xyz0[2];
   total = ref_math_dot(xyzp, total_normal);
+  /* total_normal is not unit length, scale for an orthogonal projection */
+  if (ref_math_divisible(total, ref_math_dot(total_normal, total_normal)))
+    total /= ref_math_dot(total_normal, total_normal);
   xyzp[0] -= total_normal[0] * total;
   xyzp[1] -= total_normal[1] * total;
   xyzp[2] -= total_normal[2] * total;
